@@ -22,7 +22,7 @@
 (*  reload  [hasTimes, ws, res: resource id or ""]                         *)
 (*  shift   [earliest, hasLatest, latest, hasEnd, endLatest, hasBreaks,    *)
 (*           breaks, hasReloads, reloads, loc]                             *)
-(*  vehicle [typeId, ids, profile, costDist, costTime, shifts]             *)
+(*  vehicle [typeId, ids, profile, costDist, costTime, shifts, cap]        *)
 (*  relation [type: "any"|"sequence"|"strict", vehicle, hasShift, shift,   *)
 (*            jobs: Seq(STRING)]                                           *)
 (*  objective [type, inner: Seq(STRING)]  (inner # <<>> only for           *)
@@ -93,6 +93,8 @@ B_Window(s, b) == CASE b.v = "opt-tw" -> [n |-> 2, s |-> b.a, e |-> b.b]
                     [] OTHER -> [n |-> 0, s |-> 0, e |-> 0]
 B_Positioned(b) == b.v \in {"opt-tw", "req-exact", "req-off"}
 S_BreakWindows(s) == LET bs == SelectSeq(s.breaks, B_Positioned) IN [i \in 1..Len(bs) |-> B_Window(s, bs[i])]
+\* an offset break of a shift whose start is not a date: E1302 certainly, E1303 only arguably
+S_BreakWindowsCertain(s) == LET bs == SelectSeq(s.breaks, LAMBDA b : B_Positioned(b) /\ ~(b.v = "req-off" /\ s.earliest < 0)) IN [i \in 1..Len(bs) |-> B_Window(s, bs[i])]
 S_ReloadWindows(s) == V_Flat([i \in 1..Len(s.reloads) |-> IF s.reloads[i].hasTimes THEN s.reloads[i].ws ELSE <<>>])
 \* relation of a list of windows to the shift they belong to
 Outside(ws, sw) == W_Fine(sw) /\ \E i \in 1..Len(ws) : W_Fine(ws[i]) /\ ~W_Touch(ws[i], sw)       \* entirely outside
@@ -147,7 +149,7 @@ Must(c, d) ==
     [] c = "E1300" -> V_HasDup([i \in 1..Len(d.vehicles) |-> d.vehicles[i].typeId])
     [] c = "E1301" -> V_HasDup(D_VehicleIds(d))
     [] c = "E1302" -> AnyShift(d, LAMBDA s : s.earliest < 0 \/ (s.hasEnd /\ (s.endLatest < 0 \/ s.endLatest < s.earliest)))
-    [] c = "E1303" -> AnyShift(d, LAMBDA s : s.hasBreaks /\ (WS_Must(S_BreakWindows(s), FALSE) \/ Outside(S_BreakWindows(s), S_Window(s))))
+    [] c = "E1303" -> AnyShift(d, LAMBDA s : s.hasBreaks /\ (WS_Must(S_BreakWindowsCertain(s), FALSE) \/ Outside(S_BreakWindowsCertain(s), S_Window(s))))
     [] c = "E1304" -> AnyShift(d, LAMBDA s : s.hasReloads /\ (WS_Must(S_ReloadWindows(s), FALSE) \/ Outside(S_ReloadWindows(s), S_Window(s))))
     [] c = "E1306" -> AnyVehicle(d, LAMBDA v : v.costDist = 0 /\ v.costTime = 0)
     [] c = "E1307" -> AnyShift(d, LAMBDA s : s.hasBreaks /\ (\E i \in 1..Len(s.breaks) : s.breaks[i].v \in {"opt-off", "req-off"})
@@ -159,7 +161,8 @@ Must(c, d) ==
     [] c = "E1501" -> d.profiles = <<>>
     [] c = "E1502" -> D_HasIdx(d) /\ D_HasGeo(d)
     [] c = "E1503" -> D_HasIdx(d) /\ d.matrices = <<>>
-    [] c = "E1504" -> d.matrices # <<>> /\ (IF D_HasIdx(d) THEN D_MaxIdx(d) > D_MatrixSize(d) ELSE Cardinality(D_Locs(d)) > D_MatrixSize(d))
+    [] c = "E1504" -> d.matrices # <<>> /\ ~(D_HasIdx(d) /\ D_HasGeo(d))
+                      /\ (IF D_HasIdx(d) THEN D_MaxIdx(d) > D_MatrixSize(d) ELSE Cardinality(D_Locs(d)) > D_MatrixSize(d))
     [] c = "E1505" -> AnyVehicle(d, LAMBDA v : v.profile \notin V_Range(d.profiles))
     [] c = "E1600" -> d.hasObjectives /\ d.objectives = <<>>
     [] c = "E1601" -> d.hasObjectives /\ V_HasDup(SelectSeq(O_Top(d), LAMBDA t : t # "multi-objective"))
@@ -189,7 +192,7 @@ May(c, d) == Must(c, d) \/
     [] c = "E1504" -> d.matrices # <<>> /\ (IF D_HasIdx(d) THEN D_MaxIdx(d) + 1 # D_MatrixSize(d) \/ Cardinality(D_Locs(d)) # D_MatrixSize(d)
                                              ELSE Cardinality(D_Locs(d)) # D_MatrixSize(d))
     [] c = "E1601" -> d.hasObjectives /\ V_HasDup(O_Flat(d))
-    [] c = "E1602" -> d.hasObjectives /\ d.objectives # <<>> /\ O_CountIn(O_Top(d), V_CostTypes) = 0
+    [] c = "E1602" -> d.hasObjectives /\ O_CountIn(O_Top(d), V_CostTypes) = 0            \* incl. the empty list
     [] c = "E1603" -> d.hasObjectives /\ "maximize-value" \in V_Range(O_Flat(d)) /\ ~AnyJob(d, LAMBDA j : j.hasValue /\ j.value > 0)
     [] c = "E1604" -> d.hasObjectives /\ "tour-order" \in V_Range(O_Flat(d)) /\ ~AnyTask(d, LAMBDA t : t.hasOrder /\ t.order > 0)
     [] c = "E1605" -> AnyJob(d, LAMBDA j : j.hasValue /\ j.value < 1) \/ AnyTask(d, LAMBDA t : t.hasOrder /\ t.order < 1)
